@@ -615,7 +615,8 @@ func checkLenPrefixedDecoder(c *Check, p *Program, rule string, f *ssa.Function)
 		}
 	})
 	if cell == nil {
-		c.Fail(rule, name+" reads the length octet from the head of the input", pos, "no call that decodes one octet of the input into a local found")
+		// a hand-written form (length := data[0]): judged on the interpreted decoder
+		checkLenPrefixedByInterpretation(c, p, rule, f)
 		return
 	}
 	c.OK(rule, name+" reads the length octet from the head of the input", p.InstrPos(hdr), "one octet decoded from data[0:]")
@@ -727,4 +728,86 @@ func checkLenPrefixedDecoder(c *Check, p *Program, rule string, f *ssa.Function)
 	}
 	c.Decide(sawSum, rule, name+" counts the copied octets", p.InstrPos(cp), "some successful return reports n + copy(...)", "no successful return adds the copied octets to the consumed length")
 	c.Floor(rule, "successful returns of "+name, nSucc, 1)
+}
+
+// checkLenPrefixedByInterpretation: the decoder interpreted on a symbolic
+// input.  Its successful paths must be: L = data[0] = 0 with the value reset
+// and 1 octet consumed; L in 1..255 (the whole range, nothing else demanded of
+// other octets) with the value a fresh slice of length L that received
+// data[1 : 1+L] and 1+L octets consumed.
+func checkLenPrefixedByInterpretation(c *Check, p *Program, rule string, f *ssa.Function) {
+	name := FuncName(f)
+	pos := p.Pos(f.Pos())
+	covered := finSet{}
+	bad := ""
+	nS := 0
+	for _, d := range runDecoder(p, f) {
+		tup, isT := d.ret.(avTuple)
+		if !isT || len(tup) != 2 {
+			continue
+		}
+		if o, isO := tup[1].(avOpaque); !isO || o.desc != "nil" {
+			continue
+		}
+		nS++
+		if len(d.notes) > 0 {
+			bad = "the decoder is not followed: " + strings.Join(d.notes, "; ")
+			break
+		}
+		lo, hi := d.env.bounds(linSym("data[0]"))
+		for k := range d.env {
+			if strings.HasPrefix(k, "data[") && k != "data[0]" {
+				if l2, h2 := d.env.bounds(linSym(k)); l2 != 0 || h2 != 255 {
+					bad = "a successful path constrains the octet " + k
+				}
+			}
+		}
+		n, _ := tup[0].(avInt)
+		switch v := d.mem["out:r"].(type) {
+		case avSlice:
+			want := linConst(1).Add(linSym("data[0]"))
+			seg, hasSeg := d.mem["seg:"+v.region].(avSlice)
+			switch {
+			case v.len == nil || !v.len.Equal(linSym("data[0]")) || !strings.HasPrefix(v.region, "fresh#"):
+				bad = "the decoded value is not a fresh slice of the announced length"
+			case !hasSeg || seg.region != "in" || !seg.off.Equal(linConst(1)) || seg.len == nil || !seg.len.Equal(linSym("data[0]")):
+				bad = "the decoded value does not receive the octets data[1 : 1+L]"
+			case n.lin == nil || !n.lin.Equal(want):
+				bad = "the count on the copying path is not 1 + L"
+			case lo < 1:
+				bad = "the copying path is taken for L = 0"
+			}
+			for l := lo; l <= hi && l < 256; l++ {
+				if l >= 0 {
+					covered[l] = true
+				}
+			}
+		default:
+			// the value is reset (nil or an empty slice)
+			if lo != 0 || hi != 0 {
+				bad = fmt.Sprintf("the value is reset for announced lengths %d..%d", lo, hi)
+			}
+			if n.lin == nil || !n.lin.Equal(linConst(1)) {
+				bad = "the count for an empty block is not 1"
+			}
+			if _, has := d.mem["out:r"]; !has {
+				bad = "an empty block leaves the caller's previous value in place"
+			}
+			covered[0] = true
+		}
+		if bad != "" {
+			break
+		}
+	}
+	if bad == "" {
+		if nS == 0 {
+			bad = "no successful path"
+		}
+		for l := 0; l < 256 && bad == ""; l++ {
+			if !covered[l] {
+				bad = fmt.Sprintf("no successful path for the announced length %d", l)
+			}
+		}
+	}
+	c.Decide(bad == "", rule, name+" decodes a length octet and exactly that many octets (interpreted)", pos, "L = 0: value reset, 1 octet; L = 1..255: fresh slice of data[1:1+L], 1+L octets", bad)
 }
